@@ -462,6 +462,33 @@ fn enumerate(t: Tier, shard: usize, nshards: usize, f: &mut dyn FnMut(Case) -> b
                 }
             }
         }
+        // every single function of n = 3 under 9 cost triples (quick) / all 27 (thorough)
+        {
+            let nine = [(1, 1, 1), (1, 3, 1), (1, 3, 2), (3, 1, 1), (2, 1, 3), (1, 2, 1), (3, 3, 1), (2, 3, 2), (1, 1, 3)];
+            let mut all = Vec::new();
+            for a in 1..=3 {
+                for xc in 1..=3 {
+                    for o in 1..=3 {
+                        all.push((a, xc, o));
+                    }
+                }
+            }
+            let list: Vec<(i32, i32, i32)> = if t == Tier::Thorough { all } else { nine.to_vec() };
+            for x in 0..256u64 {
+                for (a, xc, o) in &list {
+                    // SOP does not use the xor cost: skip triples that only differ in it
+                    if kind == Kind::Sop && *xc != 1 {
+                        continue;
+                    }
+                    if kind == Kind::Esop && *o != 1 {
+                        continue;
+                    }
+                    if sc.mine() && !f(Case { kind, fs: vec![Tt::from_words(3, vec![x])], and_cost: *a, xor_cost: *xc, or_cost: *o }) {
+                        return;
+                    }
+                }
+            }
+        }
         // the same function twice, n = 3 (every 4th function in quick, all in thorough)
         {
             let stride = t.pick(4u64, 1);
@@ -493,7 +520,7 @@ fn enumerate(t: Tier, shard: usize, nshards: usize, f: &mut dyn FnMut(Case) -> b
 pub fn def() -> PropDef {
     PropDef {
         id: "C18",
-        rule: "cases = (optimizer in {optimize_sop_mip, optimize_sopes_mip, optimize_esop_mip}, list of 1..3 functions of one n, gate costs (and, xor, or) in {1,2,3}^3). Oracle: (1) validity — one form per input; the cubes()/terms read back through pos_vars()/neg_vars()/vars() and Lut::from(form) denote exactly f_j; every Sop cube and Soes term is an implicant; (2) the cost of the returned forms recomputed by the harness under the documented model: gates of the DISTINCT cubes (and XOR terms) over all outputs x and/xor cost + per output (terms-1)+ x or (ESOP: xor) cost; (3) the exact optimum from the harness's own dynamic programme over all 3^n cubes (plus all 2^(n+1) XOR terms for SOPES): per-output covered set (SOP/SOPES) or XOR residual (ESOP) as state, each candidate decided once for a subset of outputs, its gates paid once — affordable for one output up to n=4 and 2..3 outputs up to n=2 (2 outputs: n=3); beyond that only `cost <= sum of the single-output optima` is asserted (sound, incomplete; labelled upper-bound-only). Violation = invalid form, or cost above the optimum / bound. Exhaustive: all single functions n<=2 (quick) / n<=3 (thorough), all ordered pairs n<=1 / n<=2, the pair (f, f) for every 4th (quick) / every (thorough) function of 3 variables, cost triples rotating over 5 fixed ones; generated lists of 1..3 functions, n<=4 (ESOP n<=3), all 27 cost triples. Non-trivial = some output needs >= 2 terms, or sharing between outputs lowers the optimum.",
+        rule: "cases = (optimizer in {optimize_sop_mip, optimize_sopes_mip, optimize_esop_mip}, list of 1..3 functions of one n, gate costs (and, xor, or) in {1,2,3}^3). Oracle: (1) validity — one form per input; the cubes()/terms read back through pos_vars()/neg_vars()/vars() and Lut::from(form) denote exactly f_j; every Sop cube and Soes term is an implicant; (2) the cost of the returned forms recomputed by the harness under the documented model: gates of the DISTINCT cubes (and XOR terms) over all outputs x and/xor cost + per output (terms-1)+ x or (ESOP: xor) cost; (3) the exact optimum from the harness's own dynamic programme over all 3^n cubes (plus all 2^(n+1) XOR terms for SOPES): per-output covered set (SOP/SOPES) or XOR residual (ESOP) as state, each candidate decided once for a subset of outputs, its gates paid once — affordable for one output up to n=4 and 2..3 outputs up to n=2 (2 outputs: n=3); beyond that only `cost <= sum of the single-output optima` is asserted (sound, incomplete; labelled upper-bound-only). Violation = invalid form, or cost above the optimum / bound. Exhaustive: all single functions n<=2 with rotating cost triples, every single function of n=3 under 9 cost triples (quick) / all 27 (thorough), all ordered pairs n<=1 / n<=2, the pair (f, f) for every 4th (quick) / every (thorough) function of 3 variables, cost triples rotating over 5 fixed ones; generated lists of 1..3 functions, n<=4 (ESOP n<=3), all 27 cost triples. Non-trivial = some output needs >= 2 terms, or sharing between outputs lowers the optimum.",
         assumptions: vec![
             "empty function lists and costs < 1 are outside the quantifier (the optimizers assert costs >= 1)",
             "HiGHS is trusted to terminate; a solver failure shows as a panic of the optimizer and is reported as such",
